@@ -8,6 +8,7 @@ From Coq Require Import ZArith List Bool.
 From Coq.Strings Require Import Byte.
 From TS Require Import Bytes State Prog Ops Interp NopSpec StackLemmas MerkleSpec TapeLemmas Builders MerkleTree MerkleTreeProofs AuthSpec.
 From TS Require TreeBuilders TreeBuildersProofs.
+From TS Require BuilderSourcesProofs.
 Import ListNotations.
 Local Open Scope nat_scope.
 
@@ -95,6 +96,16 @@ Print Assumptions C04_balanced_unlocks_are_in_input_order.
 Print Assumptions C04_balanced_builder_complete.
 Print Assumptions C04_growing_a_prioritized_tree_keeps_old_leaves.
 Print Assumptions C04_one_leaf_filler_is_refused.
+(* ---------- locking / unlocking scripts of the tree classes as SOURCE (model/BuilderSources.v mirrors the f-string templates of tools.py token for token — 83 Examples
+   against the real .src / .bytes; proofs/BuilderSourcesProofs.v: the template TEXT compiles, for all arguments, to the bytes of
+   model/Builders.v that the theorems above are about; closed statements printed by Check) ---------- *)
+Definition C04_src_merkle_lock_compiles := @BuilderSourcesProofs.merkle_lock_compiles.
+Definition C04_src_unlock_piece_compiles := @BuilderSourcesProofs.unlock_piece_compiles.
+Check C04_src_merkle_lock_compiles.
+Check C04_src_unlock_piece_compiles.
+Print Assumptions C04_src_merkle_lock_compiles.
+Print Assumptions C04_src_unlock_piece_compiles.
+
 Print Assumptions C04_committed_branch_runs.
 Print Assumptions C04_uncommitted_pair_never_starts.
 Print Assumptions C04_pack_unpack.
